@@ -100,9 +100,18 @@ def body(chk, exe, scratch, proof_ok, detail):
                 ops.append("scen %s mask 0 %s\n" % (n, mask))
                 nmask += 1
     results = base + run_all(exe, scratch, ops)
+    rank = {"none": 0, "once": 1, "from": 2, "mask": 3}
+    results.sort(key=lambda r: rank.get(r[0].split()[2], 9))
 
     sites, calls_seen = set(), set()
     worst = {}
+    groups = {}        # signature -> [what of the first, ops...]
+    base_leak_owners, always_leaking = {}, set()
+    symptom_sig = {}
+
+    def report(sig, op, what):
+        g = groups.setdefault(sig, [what, []])
+        g[1].append(op)
     for op, c, m in results:
         _, name, mode, k = op.split()[:4]
         k = int(k)
@@ -120,36 +129,62 @@ def body(chk, exe, scratch, proof_ok, detail):
         marker, rel = resfam.call_of_alloc(base_trace.get(name, ""), first_fail) if first_fail else ("", 0)
         if marker:
             sites.add((resfam.func_of(marker), rel))
-        sig = "%s@alloc%d" % (resfam.func_of(marker), rel) if marker else None
+        # (function, index of the failing allocation inside the call); inside loops the index is capped
+        sig = "%s@alloc%s" % (resfam.func_of(marker), rel if rel <= 8 else "9+") if marker else None
         if "CRASH" in c:
             at = re.search(r"at=\[([^\]]*)\] report=(\S+)", c)
-            what = "C18: scenario %s, allocation %d failing (%s): the process crashed in call [%s]: %s\nmodel: %s" % (
-                name, k, mode, at.group(1) if at else "?", at.group(2) if at else c, m[:200])
-            found |= bool(chk.violation(op, what, signature=sig))
+            what = "C18 [signature %s]: scenario %s, allocation %d failing (%s): the process crashed in call [%s]: %s\nmodel: %s" % (
+                sig, name, k, mode, at.group(1) if at else "?", at.group(2) if at else c, m[:200])
+            if sig is None:
+                sig = "%s@scripted-syscall-failure" % resfam.func_of(at.group(1) if at else "?")
+                what = what.replace("[signature None]", "[signature %s]" % sig)
+            report(sig, op, what)
             chk.bump("crash")
             continue
         if "FAULT" in m:
-            what = "C18: the model predicts a fault for scenario %s %s %d (%s); the C code: %s" % (name, mode, k, m, c[:200])
-            found |= bool(chk.violation(op, what, signature=sig))
+            what = "C18 [signature %s]: the model predicts a fault for scenario %s %s %d (%s); the C code: %s" % (sig, name, mode, k, m, c[:200])
+            report(sig, op, what)
             continue
         fc, fm = resfam.fields(c), resfam.fields(m)
         bad = []
         if fc.get("live") != "0":
-            owners = sorted(set(resfam.func_of(resfam.call_of_alloc(c.split(" trace=", 1)[1], int(x))[0])
-                                for x in fc.get("lost", "[]").strip("[]").split(",") if x))
+            lost = [resfam.call_of_alloc(c.split(" trace=", 1)[1], int(x)) for x in fc.get("lost", "[]").strip("[]").split(",") if x]
+            owners = sorted(set(resfam.func_of(mk) for mk, _ in lost))
             bad.append("%s block(s) allocated in %s are still allocated after the scenario freed everything" % (fc.get("live"), ", ".join(owners)))
+            if mode == "none":
+                base_leak_owners.setdefault(name, set()).update(owners)
+            if lost and set(owners) <= base_leak_owners.get(name, set()) | always_leaking:
+                # it leaks without any failure as well: the finding belongs to the function that allocated the block
+                always_leaking.update(owners)
+                sig = "%s@alloc%d" % (resfam.func_of(lost[0][0]), lost[0][1])
         if fc.get("badfree", "0") != "0":
             bad.append("free of a pointer the allocator did not hand out (%s)" % fc.get("badfree"))
         if fc.get("badclose", "0") != "0":
             bad.append("close of a descriptor that was not open (%s)" % fc.get("badclose"))
-        for key in ("fds", "names", "keys"):
+        if fc.get("fds") != "0":
+            def targets(tag):
+                mt = re.search(tag + r"=\[([^\]]*)\]", c)
+                return sorted(re.sub(r"pipe:\[\d+\]", "pipe", x.split("=", 1)[1]) for x in (mt.group(1) if mt else "").split(",") if "=" in x)
+            now, before = targets(" fdt"), targets("base_fdt")
+            for t in before:
+                if t in now:
+                    now.remove(t)
+            bad.append("descriptor(s) still open after the scenario: %s" % ", ".join(os.path.basename(t) or t for t in now))
+        for key in ("names", "keys"):
             if fc.get(key) != "0":
-                bad.append("%s=%s after the scenario (%s)" % (key, fc.get(key), c.split("lost=")[-1].split(" trace=")[0][:200]))
+                bad.append("%s=%s after the scenario (%s)" % (key, fc.get(key), re.sub(r".*(mapt=.*)", r"\1", c.split(" trace=")[0])[:160]))
         if fc.get("maps") != "0" and name not in F5_SCENARIOS:
             bad.append("maps=%s after the scenario" % fc.get("maps"))
         if bad:
-            what = "C18: scenario %s, failure %s %d: %s" % (name, mode, k, "; ".join(bad))
-            found |= bool(chk.violation(op, what, signature=sig))
+            # the same symptom seen earlier under a single failing allocation keeps that signature when it shows again
+            # under "all allocations from k on fail" (where the first failing allocation says little)
+            symptom = re.sub(r"\d+", "#", "; ".join(bad))
+            if mode in ("from", "mask") and symptom in symptom_sig:
+                sig = symptom_sig[symptom]
+            else:
+                symptom_sig.setdefault(symptom, sig)
+            what = "C18 [signature %s]: scenario %s, failure %s %d: %s" % (sig, name, mode, k, "; ".join(bad))
+            report(sig, op, what)
             chk.bump("leak")
             continue
         diff = [key for key in KEYS + ["trace"] if fc.get(key) != fm.get(key) and not (key == "maps" and name in F5_SCENARIOS)]
@@ -168,6 +203,11 @@ def body(chk, exe, scratch, proof_ok, detail):
             for ch in fc.get("out", ""):
                 worst[ch] = worst.get(ch, 0) + 1
 
+    # -- one violation per signature (function, allocation index), its replay lists the ops that show it
+    for sig in sorted(groups, key=str):
+        what, gops = groups[sig]
+        found |= bool(chk.violation("".join(gops[:12]), what + ("\n(%d runs show this signature)" % len(gops)), signature=sig))
+    chk.cov["finding_signatures"] = {str(k): len(v[1]) for k, v in groups.items()}
     # -- verdict on correspondence / proof
     if not found:
         if not proof_ok:
@@ -189,7 +229,7 @@ def body(chk, exe, scratch, proof_ok, detail):
                         "x86-64 Linux, POSIX back-ends as configured; prwlock-general.c is compiled next to the configured rwlock under renamed symbols",
                         "threads are held at their start until the creating call has returned (deterministic order of allocator calls)",
                         "the model has the repaired p_shm_free (finding F5 is judged by C07/C20): the leftover mapping of %s is not counted here" % "/".join(F5_SCENARIOS)]
-    return chk.finish()
+    return resfam.finish(chk)
 
 
 def replay(chk, path):
